@@ -68,7 +68,7 @@ class Snark(Contract):
     cprops = eprops = ()
     sprops = ("C17",)
     vprops = ("C17",)
-    tprops = ("C17",)
+    tprops = ("C17", "C06")   # the events of a wrapped call do not depend on the argument VALUES (C06: same circuit for every input)
     fprops = ("C17",)
     guard_relevant = False
 
